@@ -99,7 +99,7 @@ def hourly_case(job, res, flags):
             coq_table(hs["table"]), coq_list([zlit(feat_id(x)) for x in hs["ts"]]),
             coq_list([zlit(warn_id(x)) for x in hs["warnings"]]), pred))
         cur = hs
-    s0 = "{| clusters := %s; ts_features := %s; warnings := %s |}" % (
+    s0 = "{| clusters := %s; ts_features := %s; warnings := %s; hidden := 0%%Z |}" % (
         coq_table(h0["table"]), coq_list([zlit(feat_id(x)) for x in h0["ts"]]),
         coq_list([zlit(warn_id(x)) for x in h0["warnings"]]))
     return "(current_hcfg, %s, %s, %s)" % (s0, coq_list(ops), coq_list(obs)), None
